@@ -114,14 +114,8 @@ def zr(x):
 
 
 def model_real(m, v):
-    """value of a z3 real in a model as Fraction (algebraic numbers approximated to 30 digits)"""
-    e = m.eval(v, model_completion=True)
-    if z3.is_rational_value(e):
-        return Fraction(e.numerator_as_long(), e.denominator_as_long())
-    if z3.is_algebraic_value(e):
-        a = e.approx(40)
-        return Fraction(a.numerator_as_long(), a.denominator_as_long())
-    raise ValueError('cannot read model value %r' % (e,))
+    """value of a z3 real in a model as Fraction (algebraic numbers approximated to 40 digits)"""
+    return m.real(v)
 
 
 def mangle_fn(ns_name, sig):
